@@ -78,7 +78,11 @@ def run(chk: Check, model):
     fi0 = model.func("cem.CEMSolver.init_state")
     r0 = SymEval(model).run_function(fi0)
     st = r0.ret
-    ok = st[0] == "obj" and dict(st[2]).get("bestsofar_loss") == S("jax.numpy.inf") and dict(st[2]).get("bestsofar") == dict(st[2]).get("mean")
+    def _fresh(t):  # (on every path, when the state is built per branch)
+        if t[0] == "ite":
+            return _fresh(t[2]) and _fresh(t[3])
+        return t[0] == "obj" and t[1] == "CEMState" and dict(t[2]).get("bestsofar_loss") == S("jax.numpy.inf") and dict(t[2]).get("bestsofar") == dict(t[2]).get("mean")
+    ok = _fresh(st)
     chk.add("C18.best", "initial best loss is +inf", ok, f"init_state returns {T.show(st)[:160]}", chk.loc(fi0))
     # cem_step: what is evaluated and what is handed to the update are exactly the clipped samples
     f_cs = model.func("cem.cem_step")
@@ -123,9 +127,17 @@ def run(chk: Check, model):
             carry = lp[0].env_in["carry"] if lp else None
             steps = [e for e in rl.events if e.kind == "call" and e.name == step]
             st_in = carry if carry_proj is None else T.mk_index(carry, T.const(carry_proj))
-            ok2 = len(steps) == 1 and len(steps[0].args) >= 3 and steps[0].args[2] == st_in
-            new_state = T.mk_index(steps[0].term, T.ZERO) if steps else T.NONE
-            ok3 = res is not None and res[0] == "tuple" and (res[1][0] == new_state or (res[1][0][0] == "tuple" and res[1][0][1] and res[1][0][1][0] == new_state))
+            # (one step call, or one per alternative when the scan body is chosen by a condition: on every path exactly one)
+            from .. import flow as _flow
+            ok2 = len(steps) >= 1 and all(len(s_.args) >= 3 and s_.args[2] == st_in for s_ in steps) and _flow.equivalent(T.mk_or([s_.guard for s_ in steps]), T.TRUE) \
+                and all(T.mk_and([a_.guard, b_.guard]) == T.FALSE for i_, a_ in enumerate(steps) for b_ in steps[i_ + 1:])
+            ok3 = res is not None and bool(steps)
+            for s_ in steps:
+                res_ = T.assume(res, s_.guard, True) if res is not None and s_.guard != T.TRUE else res
+                new_state = T.mk_index(s_.term, T.ZERO)
+                if res_ == s_.term and carry_proj is None:
+                    continue  # the body returns the step's own (state, losses) pair as it is
+                ok3 = ok3 and res_ is not None and res_[0] == "tuple" and (res_[1][0] == new_state or (res_[1][0][0] == "tuple" and res_[1][0][1] and res_[1][0][1][0] == new_state))
         chk.add("C18.best", f"{q}: starts from the given state", bool(ok), f"{q} scans from {T.show(scans[0].args[1])[:120] if scans and len(scans[0].args) > 1 else None}, expected the caller's init_state "
                 "(re-initialising it forgets the best-so-far of a continued optimisation)", chk.loc(fl))
         if ok:
